@@ -4060,7 +4060,7 @@ pub fn run(out: &mut Out, seed: u64, thorough: bool, replay: Option<&str>) {
     // ---- Y (C01, C03, C05, C15): strangers write to a real server node and read from it, over KRPC.  Announcers
     //      that share an IP (two hosts behind one NAT), a node id that announces again from another address,
     //      19 / 20 / 21 announcers on one info hash, and a token used after the node moved to its secure id
-    for round in 0..3 {
+    for round in 0..4 {
         t0 += 10_000_000_000_000;
         let public = round == 2;
         let net = VNet::new(&mut rng, 4, !public);
@@ -4137,6 +4137,39 @@ pub fn run(out: &mut Out, seed: u64, thorough: bool, replay: Option<&str>) {
                     if d.s.alive && got.is_empty() {
                         d.out.violation("C05", "request-unanswered", format!("a server that holds {} peers for an info hash did not answer get_peers for it", k + 1));
                     }
+                }
+            }
+        } else if round == 3 {
+            // (C04) one target, two stores: the public key of this seed starts with "55:", so key ++ salt (26 bytes)
+            // is also the bencoding of a 55-byte immutable value — both hash to the same target.  An immutable
+            // put there leaves the mutable item and its seq alone
+            d.run_for(2 * SEC, 10 * MS);
+            let key = key_from_seed(1_734_490);
+            let kb = key.verifying_key().to_bytes();
+            let salt = d.rng.bytes(26);
+            let item10 = MutableItem::new(&key, b"ten", 10, Some(&salt));
+            let item5 = MutableItem::new(&key, b"five", 5, Some(&salt));
+            let target = *item10.target();
+            let mut enc = kb.to_vec();
+            enc.extend_from_slice(&salt);
+            let v_imm = enc[3..].to_vec();
+            let from = SocketAddrV4::new(Ipv4Addr::new(10, 9, 4, 4), 4000);
+            let rid = Id::from_bytes(d.rng.id20()).expect("id");
+            let acked = |r: &[Sent]| r.iter().any(|x| matches!(x.msg.message_type(), MessageType::Response(ResponseSpecific::Ping(_))));
+            if &kb[..3] == b"55:" && imm_target(&v_imm) == target {
+                let put_mut = |i: &MutableItem, tok: &[u8]| RequestTypeSpecific::Put(PutRequest { token: tok.to_vec().into_boxed_slice(), put_request_type: PutRequestSpecific::PutMutable(PutMutableRequestArguments { target, v: i.value().to_vec().into_boxed_slice(), k: *i.key(), seq: i.seq(), sig: *i.signature(), salt: Some(salt.clone().into_boxed_slice()), cas: None }) });
+                let tok = token_of(&ask(&mut d, from, rid, RequestTypeSpecific::GetPeers(GetPeersRequestArguments { info_hash: target }))).unwrap_or_default();
+                let m_ok = acked(&ask(&mut d, from, rid, put_mut(&item10, &tok)));
+                let i_ok = acked(&ask(&mut d, from, rid, RequestTypeSpecific::Put(PutRequest { token: tok.clone().into_boxed_slice(), put_request_type: PutRequestSpecific::PutImmutable(PutImmutableRequestArguments { target, v: v_imm.clone().into_boxed_slice() }) })));
+                d.out.count(if m_ok && i_ok { "y-two-stores-one-target" } else { "y-two-stores-not-acked" });
+                let r = ask(&mut d, from, rid, RequestTypeSpecific::GetValue(GetValueRequestArguments { target, seq: Some(3), salt: None }));
+                let served = r.iter().any(|x| matches!(x.msg.message_type(), MessageType::Response(ResponseSpecific::GetMutable(a)) if a.seq == 10));
+                if m_ok && !served {
+                    d.out.violation("C04", "stored-item-lost", format!("the node acknowledged a mutable item with seq 10; after an immutable put under the same 20 bytes a get with a seq filter is answered {:?}", r.iter().map(|x| x.line.chars().take(80).collect::<String>()).collect::<Vec<_>>()));
+                }
+                let r = ask(&mut d, from, rid, put_mut(&item5, &tok));
+                if m_ok && acked(&r) {
+                    d.out.violation("C04", "rollback-accepted", "the node holds seq 10 of a mutable item and acknowledged a put of seq 5 for the same key and salt (after an immutable put under the same 20 bytes)".into());
                 }
             }
         } else {
